@@ -31,6 +31,10 @@ EXTRA = [
     ("transition_list", "N{[>][<|0 1 1|]CC[>|3 0 0|]; [>]OCC [<]}|schulz_zimm(200, 150)|C"),
     ("two_elements_shared_draw", "C{[$][$]CC[$][$]}|schulz_zimm(120, 100)|O{[$][$]C(F)C[$][$]}|schulz_zimm(120, 100)|N"),
     ("ring_in_token", "{[][$]C1CCC(CC1)[$]; [$]c1ccncc1 []}|schulz_zimm(400, 300)|"),
+    # descriptor atoms bonded to each other by a multiple bond: parallel static / stochastic edges of different order
+    ("adjacent_descriptor_atoms_multiple_bond", "{[][$]C=C[$]; [$]C[]}|schulz_zimm(300, 250)|"),
+    ("adjacent_descriptor_atoms_multiple_bond", "CC{[>][<]C=C[>][<]}|schulz_zimm(300, 250)|CO"),
+    ("adjacent_descriptor_atoms_multiple_bond", "{[][$]C#C[$]; [$]C[]}|schulz_zimm(300, 250)|"),
     ("unsaturated", "{[][$]C=CC=C[$]; [$]C#N []}|schulz_zimm(150, 100)|"),
 ]
 
@@ -41,6 +45,9 @@ def trace_of(run):
 
 def check_run(rep, ident, run, stats, do_model=True):
     """oracle + correspondence for one finished run of the implementation"""
+    if run.draw_failed:
+        stats["draw_failed"] += 1
+        return
     if run.timed_out:
         rep.fail("oracle", "generation did not terminate within the time limit", ident, expected="terminates", observed="timeout")
         return
@@ -93,7 +100,7 @@ def check(rep):
     texts = list(EXTRA)
     texts += [("documented", t) for t in gi.DOCUMENTED if "schulz_zimm" in t]
     texts += [(a, t) for a, t, _ in gi.cases(rnd.randrange(1 << 30), 60 if quick else 3000, family="schulz_zimm") if a != "defective_list"]
-    stats = {"molecules": 0, "atoms": 0, "residues": 0, "links": 0, "model_runs": 0, "near_threshold_skipped": 0}
+    stats = {"molecules": 0, "atoms": 0, "residues": 0, "links": 0, "model_runs": 0, "near_threshold_skipped": 0, "draw_failed": 0}
     by_arche = {}
     skipped = {"rejected": 0, "no_graph": 0, "no_start": 0}
     evaluations = explored_leaves = exhaustive = 0
@@ -118,7 +125,7 @@ def check(rep):
             run = al.AGRun(sag, seed, timeout=60 if quick else 300)
             evaluations += 1
             check_run(rep, ident, run, stats)
-            if run.error is None and not run.timed_out:
+            if run.error is None and not run.timed_out and not run.draw_failed:
                 if run.ag.graph.number_of_nodes() > 3:
                     distinct.add((text, seed))
                 if k == 0:
@@ -151,6 +158,7 @@ def check(rep):
                          "samples": [{"text": t} for _, t in texts[:2] + texts[-1:]]})
     rep.assumptions = ["atoms, static bonds and atomic masses of the stochastic atom graph are oracle data (C17 ties that graph to the notation)",
                        "a draw within 1e-7 (relative) of an accumulated mass is not compared with the exact-rational model (counted as near_threshold_skipped)",
+                       "runs in which scipy's Schulz-Zimm draw itself raises (C11's known finding) produce no molecule and are counted as draw_failed, not judged",
                        "residue instances on the implementation side are read from marks a harness wrapper leaves on the atoms of each static completion"]
     return fw.finish(rep, coq, fw.COMMON_TRUSTED + ["modelled, not verified: graph_generate.py (Model/AGen.v), compared atom by atom, bond by bond and decision by decision on every run",
                                                     "networkx container order (node, adjacency and edge iteration) enters the model as oracle data: out-edge lists and static adjacency are read from the implementation's graphs"],
